@@ -116,6 +116,8 @@ class Connection:
         self.rbuf = None            # rest of a record larger than the recv buffer
         self.sent_shutdown = False
         self.received_shutdown = False
+        self.poison = False         # harness: the next record that arrives was damaged on the way
+        self.dead = False           # a fatal error happened
         self.partial = []           # harness: byte counts accepted by the next send() calls (short writes)
         self.app_data = None
         self.log = []
@@ -175,9 +177,19 @@ class Connection:
         if peer is None or self.rx >= len(peer.records):
             return None
         rec = peer.records[self.rx]
-        if self.rx < self.upto:
-            return rec              # known to be complete without asking the solver (see bio_write)
-        if self.arrived >= rec[1]:
+        if self.dead:
+            raise Error([("SSL routines", "", "decryption failed or bad record mac")])
+        if self.rx < self.upto or self.arrived >= rec[1]:
+            # (rx < upto: known to be complete without asking the solver, see bio_write)
+            if self.poison:
+                # the record does not authenticate: fatal alert to the peer, this endpoint is finished
+                self.dead = True
+                self._emit("fatal", _ALERT, None)
+                raise Error([("SSL routines", "", "decryption failed or bad record mac")])
+            if rec[0] == "fatal":
+                self.dead = True
+                self.rx += 1
+                raise Error([("SSL routines", "", "sslv3 alert bad record mac")])
             return rec
         return None
 
@@ -743,6 +755,14 @@ class _World:
         self._close(s, _main.CONNECTION_LOST)
         self.settle()
 
+    def corrupt(self, s):
+        """the ciphertext in flight from side s is damaged: the record it belongs to will not authenticate"""
+        if not self.T[s].pending or self.T[1 - s].closed:
+            return False
+        self.eng[1 - s].poison = True
+        self.failed = True
+        return True
+
     # -- application operations
     def is_open(self, s):
         T = self.T[s]
@@ -912,7 +932,7 @@ def _final(w, ok):
 def _run(tls13, eof3, pre, ops, ps=None, late=False):
     """ops: (o, s, x, y).  o: 0 application of side s writes x bytes (the engine's next send accepts y bytes),
     1 x bytes of the ciphertext in flight from side s are delivered (or the end of the stream), 2 application
-    of side s calls loseConnection, 3 nothing, 5 the producer writes x bytes (if it is not paused), 6 the
+    of side s calls loseConnection, 3 nothing, 4 the ciphertext in flight from side s is damaged, 5 the producer writes x bytes (if it is not paused), 6 the
     producer is unregistered, 7 / 8 the underlying transport pauses / resumes the producer, 9 the underlying
     transport of side s is lost abruptly.  ps: side that registers a push producer right after the prefix
     (operations 5-8 refer to it)."""
@@ -945,6 +965,8 @@ def _run(tls13, eof3, pre, ops, ps=None, late=False):
             w.tpause(ps, False)
         elif o == 9:
             w.fail(1 if s else 0)
+        elif o == 4:
+            w.corrupt(1 if s else 0)
         else:
             continue
         if not w.quick_ok():
@@ -1047,14 +1069,15 @@ def history_prod(tls13: bool, eof3: bool, pre: int, ps: bool, late: bool, o0: in
 
 
 def _fop_pre(o, x, y):
-    # alphabet with abrupt loss of the underlying connection: 0 write, 1 deliver, 2 loseConnection, 3 nothing, 9 loss
-    return _all(0 <= o, o <= 9, rope.bor(o <= 3, o == 9), 1 <= x, x <= B['cap'], 1 <= y, y <= B['cap'])
+    # alphabet with failures: 0 write, 1 deliver, 2 loseConnection, 3 nothing, 4 ciphertext in flight damaged,
+    # 9 abrupt loss of the underlying connection
+    return _all(0 <= o, o <= 9, rope.bor(o <= 4, o == 9), 1 <= x, x <= B['cap'], 1 <= y, y <= B['cap'])
 
 
 def history_fail(tls13: bool, eof3: bool, pre: int, o0: int, s0: bool, x0: int, y0: int, o1: int, s1: bool, x1: int,
                  y1: int, o2: int, s2: bool, x2: int, y2: int) -> bool:
     """
-    pre: _all(_rng(0, pre, 4), _fop_pre(o0, x0, y0), _fop_pre(o1, x1, y1), _fop_pre(o2, x2, y2), o0 != 3, o1 != 3, rope.bor(o0 == 9, rope.bor(o1 == 9, o2 == 9)), rope.bor(B['fhist'] >= 3, o2 == 3))
+    pre: _all(_rng(0, pre, 4), _fop_pre(o0, x0, y0), _fop_pre(o1, x1, y1), _fop_pre(o2, x2, y2), o0 != 3, o1 != 3, rope.bor(rope.bor(o0 == 9, o0 == 4), rope.bor(rope.bor(o1 == 9, o1 == 4), rope.bor(o2 == 9, o2 == 4))), rope.bor(B['fhist'] >= 3, o2 == 3))
     post: _
     """
     return _run(tls13, eof3, pre, ((o0, s0, x0, y0), (o1, s1, x1, y1), (o2, s2, x2, y2)))
@@ -1121,6 +1144,9 @@ VECTORS = {
         (False, False, 4, 0, False, 10, 10, 9, False, 1, 1, 3, False, 1, 1),
         (True, True, 2, 9, True, 1, 1, 0, False, 5, 5, 1, False, 3, 1),
         (False, True, 4, 0, True, 10, 4, 1, True, 8, 1, 9, True, 1, 1),
+        # test_handshakeFailure-like: a handshake flight / a data record does not authenticate
+        (False, False, 1, 4, True, 1, 1, 1, True, 2, 1, 3, False, 1, 1),
+        (True, False, 4, 0, False, 10, 10, 4, False, 1, 1, 0, True, 5, 5),
     ],
 }
 
